@@ -8,4 +8,5 @@ import (
 func init() {
 	fw.Families["C01"] = e1.RunC01
 	fw.Families["C02"] = e1.RunC02
+	fw.Families["C03"] = e1.RunC03
 }
